@@ -247,7 +247,7 @@ Definition router_counts_ok (n : netlist) (r : rt_inst) : Prop :=
   Z.of_nat (length (r_req_out r)) = r_nin r /\ Z.of_nat (length (r_rsp_in r)) = r_nin r /\
   (n_nw n = true -> Z.of_nat (length (r_wide_in r)) = r_nin r /\ Z.of_nat (length (r_wide_out r)) = r_nin r) /\
   match r_map r with
-  | Some (_, (n1, (n2, rules))) => n1 = Z.of_nat (length rules) /\ n2 = n1
+  | Some (_, (n1, (n2, (_, rules)))) => n1 = Z.of_nat (length rules) /\ n2 = n1
   | None => n_algo n <> "IdTable"
   end.
 Definition C13_on (n : netlist) : Prop :=
@@ -280,7 +280,7 @@ Proof.
   { intros l Hl. specialize (A3 l Hl). lia. }
   repeat split; try lia; try (apply L; cbn; tauto);
     try (match goal with Hn : n_nw n = true |- _ => rewrite Hn in L; apply L; cbn; tauto end).
-  destruct (r_map r) as [[nm [n1 [n2 rules]]]|].
+  destruct (r_map r) as [[nm [n1 [n2 [iw rules]]]]|].
   - apply guard_nil in H2. lia.
   - apply guard_nil in H2. intros E. rewrite E in H2. cbn in H2. discriminate.
 Qed.
